@@ -1275,6 +1275,13 @@ func preprocessStylesheet(deviceMediaType, baseUrl string, stylesheetRules []pa.
 	for _, rule := range stylesheetRules {
 		atRule, isAtRule := rule.(pa.AtRule)
 		if _isContentNone(rule) && (!isAtRule || utils.AsciiLower(atRule.AtKeyword) != "import") {
+			switch rule := rule.(type) {
+			case pa.ParseError:
+				logger.WarningLogger.Printf("Parse error at %d:%d: %s \n", rule.Pos().Line, rule.Pos().Column, rule.Message)
+			case pa.AtRule:
+				logger.WarningLogger.Printf("Unknown or invalid rule '@%s' at %d:%d, the whole rule was ignored. \n",
+					rule.AtKeyword, rule.Pos().Line, rule.Pos().Column)
+			}
 			continue
 		}
 
@@ -1439,6 +1446,9 @@ func preprocessStylesheet(deviceMediaType, baseUrl string, stylesheetRules []pa.
 				}
 
 				counterStyle[name] = ruleDescriptors
+			default:
+				logger.WarningLogger.Printf("Unknown rule '@%s' at %d:%d, the whole rule was ignored. \n",
+					rule.AtKeyword, rule.Pos().Line, rule.Pos().Column)
 			}
 		}
 	}
